@@ -577,6 +577,9 @@ def is_exception(cls: 'Class') -> bool:
     for base in cls.mro(True, False):
         if base in _STD_LIB_EXCEPTIONS:
             return True
+        if isinstance(base, str) and base.startswith('builtins.') and base[len('builtins.'):] in _STD_LIB_EXCEPTIONS:
+            # The same exception spelt through the builtins module.
+            return True
     return False
 
 def compute_mro(cls:'Class') -> Sequence[Union['Class', str]]:
